@@ -36,6 +36,7 @@ type snapshot struct {
 	Issued [][]issued // per key: all writes issued so far (acknowledged or in flight)
 	PreGC  [][]Alt    // C07: model state of every key when the enclosing pass started
 	Stale  bool       // C07: a data file rewritten in place still carries its stale tail
+	DupTail bool      // C07: ... and that tail provably holds nothing but whole duplicates of current records
 	GCWritten map[int]bool // C07: keys written through the traffic connection during the enclosing pass (so far, incl. in flight)
 	Kind2  string     // second life: how it was killed
 	Ops2   int        // second life: operations issued
@@ -53,6 +54,7 @@ type crashExec struct {
 	gcSeen   bool
 	preSize  map[string]int64 // C07: data file sizes when the pass started
 	stale    map[string]bool  // C07: files written below their old size and not truncated yet
+	dupPass  bool // C07: the running pass is the one of the overflow template (distinct keys, no traffic)
 	cases    int64
 	dcases   map[string]bool
 	// C07: client writes placed inside the pass (second connection)
@@ -98,6 +100,19 @@ func (c *crashExec) issuedNow() [][]issued {
 
 func (c *crashExec) take(ev *simrt.FSEvent, torn int) { c.takeL(ev, torn, "") }
 
+// stalePrefix classifies a violation seen after a kill in the stale-tail state. The recorded
+// findings (KF-C07-stale-tail-*) need a stale tail that holds a superseded record, a record of a
+// deleted key, or a record cut by a write of another size. In the pass of the overflow template every
+// key was written once, nothing was deleted, all records have one size and the kill falls between
+// writes: the tail holds whole duplicates of current records only, the findings cannot explain a
+// failure there, and the violation keeps a prefix no recorded finding matches.
+func (s *snapshot) stalePrefix() string {
+	if s.DupTail {
+		return "stale-dup-tail/"
+	}
+	return "stale-tail/"
+}
+
 func (c *crashExec) takeL(ev *simrt.FSEvent, torn int, forced string) {
 	x := c.x
 	stale := len(c.stale) > 0
@@ -127,7 +142,8 @@ func (c *crashExec) takeL(ev *simrt.FSEvent, torn int, forced string) {
 	if forced != "" {
 		label = forced
 	}
-	s := &snapshot{Dir: d, Seq: ev.Seq, Kind: label, Torn: torn, OpID: x.curOp, InGC: x.inGC || forced != "", Issued: c.issuedNow(), PreGC: c.preGCAlts, Stale: stale}
+	s := &snapshot{Dir: d, Seq: ev.Seq, Kind: label, Torn: torn, OpID: x.curOp, InGC: x.inGC || forced != "", Issued: c.issuedNow(), PreGC: c.preGCAlts, Stale: stale,
+		DupTail: stale && torn < 0 && c.dupPass && x.inGC}
 	if len(x.gcWritten) > 0 {
 		s.GCWritten = map[int]bool{}
 		for k := range x.gcWritten {
@@ -332,8 +348,8 @@ func (c *crashExec) recoverGen(s *snapshot, gen int, extra [][]issued) {
 	c.cases++
 	if x.viol == nil {
 		defer func() {
-			if v := x.viol; v != nil && c.prop == "C07" && s.InGC && s.Stale && !strings.HasPrefix(v.Sub, "stale-tail/") {
-				v.Sub = "stale-tail/" + v.Sub
+			if v := x.viol; v != nil && c.prop == "C07" && s.InGC && s.Stale && !strings.HasPrefix(v.Sub, "stale-") {
+				v.Sub = s.stalePrefix() + v.Sub
 			}
 		}()
 	}
@@ -427,7 +443,7 @@ func (c *crashExec) recoverGen(s *snapshot, gen int, extra [][]issued) {
 		}
 		sub := ""
 		if s.Stale {
-			sub = "stale-tail/"
+			sub = s.stalePrefix()
 		}
 		x.failSub("R-crash-refused-without-partial", sub, fmt.Sprintf("%s: the store refused to start (%s) although no data file ends in a partially written record", desc, trunc(msg, 300)))
 		return
@@ -469,7 +485,7 @@ func (c *crashExec) recoverGen(s *snapshot, gen int, extra [][]issued) {
 			c.checkPreGC(s, kd, k, r.hit, r.val, r.flag, r.err)
 			if x.viol != nil {
 				if s.Stale {
-					x.viol.Sub = "stale-tail/" + x.viol.Sub
+					x.viol.Sub = s.stalePrefix() + x.viol.Sub
 				}
 				return
 			}
@@ -687,6 +703,15 @@ func (c *crashExec) startInPass(op Op) {
 	c.trafOps, c.trafNext, c.trafReq, c.trafBusy, c.trafKey = nil, 0, false, false, -1
 	c.closeAt, c.gcEvN, c.closeReq, c.closing = op.CloseAt, 0, false, false
 	x.gcWritten = nil
+	c.dupPass = false
+	if x.plan.Extra["overflowTemplate"] == 1 && len(op.Traffic) == 0 {
+		for _, o := range x.plan.Ops {
+			if o.Kind == "gc" {
+				c.dupPass = o.ID == op.ID // the template's pass is the first of the plan
+				break
+			}
+		}
+	}
 	if len(op.Traffic) > 0 {
 		c.trafOps = op.Traffic
 		x.gcWritten = map[int]bool{}
